@@ -151,6 +151,19 @@ MoveArg(mv, env) ==
 
 ElemAlign(f, opts) == IF f.aligned > 0 THEN f.aligned ELSE IF opts.align > 0 THEN opts.align ELSE 1
 
+\* ------------------------------------------------- callables that serialise
+\* the packet values a callable can reach from the values it is given (nested in lists / packets)
+RECURSIVE PktsIn(_)
+PktsIn(v) ==
+    CASE v.t = "pkt" -> {v} \cup UNION {PktsIn(v.vals[i].v) : i \in 1..Len(v.vals)}
+      [] v.t = "list" -> UNION {PktsIn(v.l[i]) : i \in 1..Len(v.l)}
+      [] OTHER -> {}
+PktsOf(vals) == UNION {PktsIn(vals[i].v) : i \in 1..Len(vals)}
+\* outcome of x.pack() for a packet value x: its own pack machine run to completion on a FRESH buffer (defined below)
+RECURSIVE PackLenOf(_, _)
+\* a function TLC builds lazily: nothing is packed unless an expression asks for it
+PLen(dp, vals, root) == [x \in PktsOf(vals) \cup PktsOf(root) |-> PackLenOf(dp, x)]
+
 \* ============================================================ UNPACK MACHINE
 PktFrame(cls, pos) == [kind |-> "pkt", cls |-> cls, idx |-> 1, pos |-> pos, vals |-> <<>>,
                        fstart |-> pos, bitsI |-> 0]
@@ -162,7 +175,8 @@ UInit(root, start) ==
 OwnerIdx(stack) == CHOOSE i \in 1..Len(stack) :
                       stack[i].kind = "pkt" /\ \A j \in (i + 1)..Len(stack) : stack[j].kind # "pkt"
 Owner(stack) == stack[OwnerIdx(stack)]
-EnvU(raw, m) == [vals |-> Owner(m.stack).vals, raw |-> raw, cur |-> m.cur, root |-> m.stack[1].vals, ipos |-> Owner(m.stack).pos]
+EnvU(dp, raw, m) == [vals |-> Owner(m.stack).vals, raw |-> raw, cur |-> m.cur, root |-> m.stack[1].vals, ipos |-> Owner(m.stack).pos,
+                     plen |-> PLen(dp, Owner(m.stack).vals, m.stack[1].vals)]
 CurFieldOf(dp, fr) == dp[fr.cls].fields[fr.idx]
 
 \* the name under which a field is listed (a described field is listed under its hidden name)
@@ -171,15 +185,15 @@ ListedName(f) == IF f.k = "Int" /\ f.desc.kind # "none" THEN "_described_" \o f.
 FailU(m) == [m EXCEPT !.st = "unwind"]
 
 \* after-unpack hooks (descriptor kind "verify": the parsed value must equal the computed one, else the hook raises)
-RECURSIVE AfterUnpackHooks(_, _, _)
-AfterUnpackHooks(fs, i, vals) ==       \* [ok, name]
+RECURSIVE AfterUnpackHooks(_, _, _, _)
+AfterUnpackHooks(dp, fs, i, vals) ==       \* [ok, name]
     IF i > Len(fs) THEN [ok |-> TRUE, name |-> ""]
     ELSE IF fs[i].k = "Int" /\ fs[i].desc.kind \in {"verify", "check"}
-         THEN LET r == Eval(fs[i].desc.e, [vals |-> vals, raw |-> <<>>, cur |-> 0, root |-> <<>>, ipos |-> 0]) IN
+         THEN LET r == Eval(fs[i].desc.e, [vals |-> vals, raw |-> <<>>, cur |-> 0, root |-> <<>>, ipos |-> 0, plen |-> PLen(dp, vals, <<>>)]) IN
               IF r.ok /\ HasVal(vals, fs[i].name) /\ r.v = Lookup(vals, fs[i].name)
-              THEN AfterUnpackHooks(fs, i + 1, vals)
+              THEN AfterUnpackHooks(dp, fs, i + 1, vals)
               ELSE [ok |-> FALSE, name |-> ListedName(fs[i])]
-         ELSE AfterUnpackHooks(fs, i + 1, vals)
+         ELSE AfterUnpackHooks(dp, fs, i + 1, vals)
 
 \* one frame per step, innermost first; only packet frames contribute an entry
 \* (a frame whose after-unpack hook failed is past its last field: the entry names the described field)
@@ -217,7 +231,7 @@ Deliver(dp, raw, m, val) ==
                 st2 == [m.stack EXCEPT ![oi] = ow2]
                 m2 == [m EXCEPT !.stack = st2]
             IN IF fr.until
-               THEN LET c == CondTruth(fr.f.until, EnvU(raw, m2)) IN
+               THEN LET c == CondTruth(fr.f.until, EnvU(dp, raw, m2)) IN
                     IF ~c.ok THEN FailU(m2)
                     ELSE [m2 EXCEPT !.stack = SetTop(@, [fr EXCEPT !.left = IF c.b THEN 0 ELSE 1])]
                ELSE [m2 EXCEPT !.stack = SetTop(@, [fr EXCEPT !.left = @ - 1])]
@@ -229,7 +243,7 @@ RECURSIVE ExecValueField(_, _, _, _)
 ExecValueField(dp, raw, m, f) ==
     LET ow == Owner(m.stack)
         opts == dp[ow.cls].opts
-        env == EnvU(raw, m)
+        env == EnvU(dp, raw, m)
     IN
     CASE f.k = "Int" ->
             LET r == ReadInt(raw, m.cur, f.n, f.signed, IsBig(f, opts)) IN
@@ -268,7 +282,7 @@ ExecField(dp, raw, m) ==
         fs == dp[fr.cls].fields
         f == fs[fr.idx]
         opts == dp[fr.cls].opts
-        env == EnvU(raw, m)
+        env == EnvU(dp, raw, m)
     IN
     CASE f.k \in {"Int", "Data", "Ref", "RefSel"} -> ExecValueField(dp, raw, m, f)
       [] f.k \in {"Em", "Emb"} ->      \* (an embedding reference is a no-op: its fields follow as fields of this class)
@@ -293,11 +307,11 @@ ExecField(dp, raw, m) ==
       [] f.k = "Rep" ->
             LET fr1 == [fr EXCEPT !.vals = SetVal(@, f.name, ListV(<<>>))]
                 m1 == [m EXCEPT !.stack = SetTop(@, fr1)]
-                cnt == IF f.count.m = "none" THEN Ok(IntV(1)) ELSE EvalSpec(f.count, EnvU(raw, m1))
+                cnt == IF f.count.m = "none" THEN Ok(IntV(1)) ELSE EvalSpec(f.count, EnvU(dp, raw, m1))
             IN IF ~cnt.ok \/ cnt.v.t # "int" THEN FailU(m1)
                ELSE LET skipByCount == f.when.m # "none" /\ cnt.v.i <= 0
                         w == IF f.when.m = "none" \/ skipByCount THEN [ok |-> TRUE, b |-> TRUE]
-                             ELSE CondTruth(f.when, EnvU(raw, m1))
+                             ELSE CondTruth(f.when, EnvU(dp, raw, m1))
                     IN IF ~w.ok THEN FailU(m1)
                        ELSE IF skipByCount \/ ~w.b
                        THEN [m1 EXCEPT !.stack = SetTop(@, Advance(fr1, m.cur)),
@@ -316,7 +330,7 @@ StepU(dp, raw, m) ==
     CASE m.st = "unwind" -> UnwindU(dp, m)
       [] fr.kind = "pkt" ->
             IF fr.idx <= Len(dp[fr.cls].fields) THEN ExecField(dp, raw, m)
-            ELSE LET h == AfterUnpackHooks(dp[fr.cls].fields, 1, fr.vals) IN      \* sync_after_unpack of the descriptors
+            ELSE LET h == AfterUnpackHooks(dp, dp[fr.cls].fields, 1, fr.vals) IN      \* sync_after_unpack of the descriptors
                  IF ~h.ok THEN FailU([m EXCEPT !.hookname = h.name])
                  ELSE IF Len(m.stack) = 1
                  THEN [m EXCEPT !.st = "done", !.result = PktV(fr.cls, fr.vals), !.stack = <<>>]
@@ -339,21 +353,21 @@ RunningU(m) == m.st \in {"run", "unwind"}
 
 \* sync_before_pack of the descriptors: hidden slot := what the attribute reads as.
 \* explicit = names whose descriptor was disabled by an assignment (top-level packet only)
-DescRead(f, vals, explicit) ==       \* [ok, v]
+DescRead(dp, f, vals, explicit) ==       \* [ok, v]
     IF f.name \in explicit \/ f.desc.kind = "check" THEN Ok(Lookup(vals, f.name))      \* ("check": a plain slot with an after-unpack hook)
     ELSE IF f.desc.kind = "autolen"
          THEN LET t == IF HasVal(vals, f.desc.of) THEN Lookup(vals, f.desc.of) ELSE NoneV IN
               IF t.t \in {"bytes", "list"} THEN Ok(IntV(Len(PL(t)))) ELSE Raise
-         ELSE Eval(f.desc.e, [vals |-> vals, raw |-> <<>>, cur |-> 0, root |-> <<>>, ipos |-> 0])
+         ELSE Eval(f.desc.e, [vals |-> vals, raw |-> <<>>, cur |-> 0, root |-> <<>>, ipos |-> 0, plen |-> PLen(dp, vals, <<>>)])
 
-RECURSIVE SyncVals(_, _, _, _)
-SyncVals(fs, i, vals, explicit) ==      \* [ok, vals, name]
+RECURSIVE SyncVals(_, _, _, _, _)
+SyncVals(dp, fs, i, vals, explicit) ==      \* [ok, vals, name]
     IF i > Len(fs) THEN [ok |-> TRUE, vals |-> vals, name |-> ""]
     ELSE IF fs[i].k = "Int" /\ fs[i].desc.kind \notin {"none", "check"}      \* ("check" brings no before-pack hook)
-         THEN LET r == DescRead(fs[i], vals, explicit) IN
+         THEN LET r == DescRead(dp, fs[i], vals, explicit) IN
               IF ~r.ok THEN [ok |-> FALSE, vals |-> vals, name |-> ListedName(fs[i])]
-              ELSE SyncVals(fs, i + 1, SetVal(vals, fs[i].name, r.v), explicit)
-         ELSE SyncVals(fs, i + 1, vals, explicit)
+              ELSE SyncVals(dp, fs, i + 1, SetVal(vals, fs[i].name, r.v), explicit)
+         ELSE SyncVals(dp, fs, i + 1, vals, explicit)
 
 \* exp: the packet was built from keyword arguments (its descriptors were assigned explicitly)
 \* exp: which described fields of this packet were ASSIGNED (their descriptors are switched off): all of them, or the named ones
@@ -389,7 +403,8 @@ UnwindP(dp, p) ==
               ELSE p.err
     IN [p EXCEPT !.stack = Pop(p.stack), !.err = e, !.st = IF Len(p.stack) = 1 THEN "fail" ELSE "unwind"]
 
-EnvP(p) == [vals |-> Owner(p.stack).vals, raw |-> <<>>, cur |-> p.frag.cur, root |-> p.stack[1].vals, ipos |-> Owner(p.stack).pos]
+EnvP(dp, p) == [vals |-> Owner(p.stack).vals, raw |-> <<>>, cur |-> p.frag.cur, root |-> p.stack[1].vals, ipos |-> Owner(p.stack).pos,
+                plen |-> PLen(dp, Owner(p.stack).vals, p.stack[1].vals)]
 
 \* fragments.append(bytes): [ok, p]
 PAppend(p, s) ==
@@ -429,7 +444,7 @@ PackValue(dp, p, f, v) ==
             ELSE [p EXCEPT !.st = "enter", !.stack = Append(@, ChildFrame(dp, p, f, v))]
       [] f.k = "RefSel" ->
             IF v.t = "pkt" THEN [p EXCEPT !.st = "enter", !.stack = Append(@, ChildFrame(dp, p, f, v))]
-            ELSE LET key == Eval(f.key, EnvP(p)) IN
+            ELSE LET key == Eval(f.key, EnvP(dp, p)) IN
                  IF ~key.ok THEN FailP(p)
                  ELSE LET hits == {i \in 1..Len(f.alts) : IntV(f.alts[i].key) = key.v} IN
                       IF hits = {} THEN FailP(p)
@@ -442,7 +457,7 @@ PackField(dp, p) ==
     LET fr == Top(p.stack)
         fs == dp[fr.cls].fields
         f == fs[fr.idx]
-        env == EnvP(p)
+        env == EnvP(dp, p)
         has == HasVal(fr.vals, f.name)
     IN
     CASE f.k \in {"Int", "Data", "Ref", "RefSel"} ->
@@ -485,7 +500,7 @@ StepP(dp, p) ==
             \* came from a parse, all when they were built from keyword arguments (p.nexp)
             LET allDesc == {dp[fr.cls].fields[i].name : i \in {j \in 1..Len(dp[fr.cls].fields) :
                                 dp[fr.cls].fields[j].k = "Int" /\ dp[fr.cls].fields[j].desc.kind # "none"}}
-                s == SyncVals(dp[fr.cls].fields, 1, fr.vals,
+                s == SyncVals(dp, dp[fr.cls].fields, 1, fr.vals,
                               IF Len(p.stack) = 1 THEN p.explicit ELSE IF fr.exp.all THEN allDesc ELSE fr.exp.names \cap allDesc) IN
             IF ~s.ok THEN FailP([p EXCEPT !.st = "run", !.hookname = s.name])
             ELSE [p EXCEPT !.st = "run",
@@ -503,4 +518,11 @@ StepP(dp, p) ==
                  IN PackValue(dp, PSetCur(p, c2), [fr.f.elem EXCEPT !.name = fr.f.name], fr.items[fr.i])
 
 RunningP(p) == p.st \in {"enter", "run", "unwind"}
+
+\* x.pack() called from inside a callable: a pack machine of its own, on a fresh buffer, run to completion
+RECURSIVE RunPFresh(_, _, _)
+RunPFresh(dp, p, fuel) == IF ~RunningP(p) \/ fuel = 0 THEN p ELSE RunPFresh(dp, StepP(dp, p), fuel - 1)
+PackLenOf(dp, x) ==
+    LET p == RunPFresh(dp, PInit0(x.cls, x.vals, <<>>), 500) IN
+    IF p.st = "done" THEN Ok(IntV(Len(p.out))) ELSE Raise
 =============================================================================
